@@ -409,6 +409,11 @@ impl Sess {
                 self.choking = false;
                 self.send(&Msg::Unchoke);
             }
+            Act::RepeatChokeState => {
+                world::bump("redundant_choke_state");
+                let m = if self.choking { Msg::Choke } else { Msg::Unchoke };
+                self.send(&m);
+            }
             Act::Gain(p) => {
                 let newly = {
                     let mut h = self.has.lock().unwrap();
